@@ -77,3 +77,11 @@ impl<T> EntryList<T> {
         }
     }
 }
+
+#[cfg(divan_verif)]
+impl<T> EntryList<T> {
+    /// Detaches every pushed entry from this (root) list.
+    pub(crate) fn verif_clear(&self) {
+        self.next.store(ptr::null_mut(), AtomicOrdering::SeqCst);
+    }
+}
